@@ -375,7 +375,7 @@ func WorkerMain(args []string) {
 	r := NewR(c, args[1])
 	r.IsWorker = true
 	if pv, st := Try(func() { c.RunShard(r, i, n) }); pv != nil {
-		r.HarnessError("worker %d/%d panicked: %v", i, n, pv); _ = st
+		r.HarnessError("worker %d/%d panicked: %v\n%s", i, n, pv, st)
 	}
 	b, _ := json.Marshal(r)
 	w := bufio.NewWriter(os.Stdout)
